@@ -13,7 +13,7 @@ def main():
     tier = a.tier if a.tier in ("quick", "thorough") else "quick"
     if a.prop == "setup":
         return setup()
-    ctx = core.Ctx(a.prop, tier, seed)
+    ctx = core.Ctx(a.prop, tier, seed, clean=not a.replay)
     core.repo_on_path()
     try:
         mod = importlib.import_module("vlib.props." + a.prop.lower())
